@@ -13,7 +13,9 @@ Inductive slotv := SChain (l : list nat) | SReady.
    completion of an async<T> coroutine started with async::start(promise&): `co_return v` resp. a thrown exception
    (async.h:142-150 start_promise claims, :240-245 return_value/unhandled_exception set the payload,
    :217-230 final_awaiter resolves, destroys the frame, then transfers to the collected coroutines) *)
-Inductive rkind := KVal (v : Z) | KExc (e : Z) | KDrop | KMove | KDtor | KAsyncV (v : Z) | KAsyncE (e : Z).
+Inductive rkind := KVal (v : Z) | KExc (e : Z) | KDrop | KMove | KDtor | KAsyncV (v : Z) | KAsyncE (e : Z)
+                  | KCoVal (v : Z).   (* a coroutine doing `co_await promise(v)`: suspend_point::await_suspend pops one handle
+                                         for symmetric transfer and queues the rest (suspend_point.h:110-133) *)
 (* waiter kinds: coroutine `co_await f` / thread in f.sync()+value() (= wait()) / callback awaiter (await_suspend(fn,ctx)) /
    thread in `bool(f.has_value())` / coroutine `co_await f.has_value()` (future.h:470-480 awaitable_bool) *)
 Inductive wkind := WCoro | WBlock | WCallback | WHasValue | WCoroHas.
@@ -38,7 +40,8 @@ Inductive wpc :=
 | WSub (retry : bool) (exp : option nat)   (* at "sub"/"sub_retry": CAS attempt with expected head exp *)
 | WParked                      (* subscribed coroutine / callback: its thread has returned *)
 | WFlag                        (* subscribed blocking thread: waits for sync_awaiter::flag *)
-| WDone (seen : outcome).
+| WDone (seen : outcome)
+| WStart.                      (* harness point "wstart": the waiter has not begun its operation yet *)
 
 Inductive thr := TR (k : rkind) (pc : rpc) | TW (k : wkind) (pc : wpc) (flag : bool).
 
@@ -61,6 +64,8 @@ Definition set_thr (s : st) (i : nat) (t : thr) : st :=
 
 Definition is_coro (k : wkind) : bool := match k with WCoro | WCoroHas => true | _ => false end.
 Definition is_async (k : rkind) : bool := match k with KAsyncV _ | KAsyncE _ => true | _ => false end.
+(* resolvers that take one collected handle by suspend_point::pop() *)
+Definition pops (k : rkind) : bool := match k with KAsyncV _ | KAsyncE _ | KCoVal _ => true | _ => false end.
 Definition slot_ready (s : st) : bool := match slot s with SReady => true | _ => false end.
 
 Definition head (l : list nat) : option nat := match l with [] => None | x :: _ => Some x end.
@@ -88,7 +93,7 @@ Definition enabled (s : st) (i : nat) : bool :=
   end.
 
 Definition payload_of (k : rkind) (old : outcome) : outcome :=
-  match k with KVal v => OVal v | KExc e => OExc e | KAsyncV v => OVal v | KAsyncE e => OExc e | _ => old end.
+  match k with KVal v => OVal v | KExc e => OExc e | KAsyncV v => OVal v | KAsyncE e => OExc e | KCoVal v => OVal v | _ => old end.
 
 (* release one parked waiter w (resolver side), awaiter.h:104-110: y = chain; chain = y->_next; y->_next = nullptr;
    ret << y->resume().  Coroutine handles are collected in the suspend point, the others run now:
@@ -135,7 +140,7 @@ Definition finish (s : st) (i : nat) (k : rkind) : st :=
             then mkSt (owner s) (slot s) (payload s) (walk s) (acc s) (thrs s) (winner s) (sublog s) (wlog s)
                       (elog s ++ [EFrame (slot_ready s)])     (* me.destroy(), async.h:227 *)
             else s in
-  let s1 := resume_all s0 (if is_async k then rot_last (acc s) else acc s) in
+  let s1 := resume_all s0 (if pops k then rot_last (acc s) else acc s) in
   set_thr (mkSt (owner s1) (slot s1) (payload s1) (walk s1) [] (thrs s1) (winner s1) (sublog s1) (wlog s1) (elog s1))
           i (TR k (RDone true)).
 
@@ -166,6 +171,8 @@ Definition tstep (s : st) (i : nat) : st * Z :=
           (match t with [] => finish s1 i k | _ => s1 end, 4)
       end
   | Some (TR k (RDone _)) => (s, 0)
+  | Some (TW k WStart f) =>
+      (set_thr s i (TW k (match k with WHasValue => WPre | _ => WReady end) f), 13)
   | Some (TW k WPre f) =>
       (match slot s with
        | SReady => set_thr s i (TW k (WDone (payload s)) f)
@@ -225,11 +232,14 @@ Definition decode_thr (l : list Z) : list thr :=
   | [1; 3; _] => [TR KMove RClaim]
   | [1; 4; v] => [TR (KAsyncV v) RClaim]
   | [1; 5; e] => [TR (KAsyncE e) RClaim]
+  | [1; 6; _] => [TR KMove RClaim]        (* move-then-destroy where the private copy dies by stack unwinding *)
+  | [1; 7; v] => [TR (KCoVal v) RClaim]
   | [2; 0] => [TW WCoro WReady false]
   | [2; 1] => [TW WBlock WReady false]
   | [2; 2] => [TW WCallback WReady false]
-  | [2; 3] => [TW WHasValue WPre false]
-  | [2; 4] => [TW WCoroHas WReady false]
+  | [2; 3] => [TW WHasValue WStart false]
+  | [2; 4] => [TW WCoroHas WStart false]
+  | [2; 5] => [TW WCallback (WSub false None) false]   (* call_fn_future_awaiter::operator<<: subscribes without await_ready *)
   | _ => []
   end.
 Definition decode_sched (l : list Z) : list Z := match l with 9 :: r => r | _ => [] end.
@@ -241,20 +251,21 @@ Definition okind (isvoid : bool) (o : outcome) : list Z :=
   match o with ONone => [0; 0] | OVal v => [1; if isvoid then 0 else v] | OExc e => [2; e] end.
 Definition has_val (o : outcome) : bool := match o with ONone => false | _ => true end.
 
-(* waiter line: tid 2 done kind datum runs parked  (parked = the subscription succeeded, i.e. the waiter really suspended) *)
-Definition thr_obs (isvoid : bool) (sub : list nat) (i : nat) (t : thr) : list Z :=
+(* waiter line: tid 2 done kind datum runs parked ready  (parked = the subscription succeeded, i.e. the waiter really
+   suspended; ready = the future's slot held the ready marker when the waiter went on) *)
+Definition thr_obs (isvoid : bool) (sub : list nat) (rdy : bool) (i : nat) (t : thr) : list Z :=
   let pk := b2z (existsb (Nat.eqb i) sub) in
   match t with
   | TR _ (RDone r) => [Z.of_nat i; 1; b2z r]
   | TR _ _ => [Z.of_nat i; 1; -1]
-  | TW WHasValue (WDone o) _ => [Z.of_nat i; 2; 1; 4; b2z (has_val o); 1; pk]
-  | TW WCoroHas (WDone o) _ => [Z.of_nat i; 2; 1; 4; b2z (has_val o); 1; pk]
-  | TW _ (WDone o) _ => Z.of_nat i :: 2 :: 1 :: okind isvoid o ++ [1; pk]
-  | TW _ _ _ => [Z.of_nat i; 2; 0; 0; 0; 0; pk]
+  | TW WHasValue (WDone o) _ => [Z.of_nat i; 2; 1; 4; b2z (has_val o); 1; pk; b2z rdy]
+  | TW WCoroHas (WDone o) _ => [Z.of_nat i; 2; 1; 4; b2z (has_val o); 1; pk; b2z rdy]
+  | TW _ (WDone o) _ => Z.of_nat i :: 2 :: 1 :: okind isvoid o ++ [1; pk; b2z rdy]
+  | TW _ _ _ => [Z.of_nat i; 2; 0; 0; 0; 0; pk; 0]
   end.
 
-Fixpoint thr_obs_all (isvoid : bool) (sub : list nat) (l : list thr) (i : nat) : list (list Z) :=
-  match l with [] => [] | t :: r => thr_obs isvoid sub i t :: thr_obs_all isvoid sub r (S i) end.
+Fixpoint thr_obs_all (isvoid : bool) (sub : list nat) (rdy : bool) (l : list thr) (i : nat) : list (list Z) :=
+  match l with [] => [] | t :: r => thr_obs isvoid sub rdy i t :: thr_obs_all isvoid sub rdy r (S i) end.
 
 (* one line per destroyed async frame: 11 tid ready-at-destruction 0 *)
 Definition frame_obs (s : st) : list (list Z) :=
@@ -282,7 +293,7 @@ Definition cell_run (isvoid : bool) (ops : list (list Z)) : list (list Z) :=
   let '(s, tr) := run_sched (length sched + 2000) s0 sched [] in
   map (fun p => [Z.of_nat (fst p); snd p]) tr
   ++ (match stuck_list (thrs s) 0 with [] => [] | l => [777 :: l] end)
-  ++ thr_obs_all isvoid (sublog s) (thrs s) 0 ++ frame_obs s ++ [final_obs isvoid s; [10; 0; 0]].
+  ++ thr_obs_all isvoid (sublog s) (slot_ready s) (thrs s) 0 ++ frame_obs s ++ [final_obs isvoid s; [10; 0; 0]].
 
 (* ---------- decidable form of C01 + C02 on an observed result block ---------- *)
 (* expected final outcome given which declared resolver (by tid) reported success *)
@@ -290,6 +301,7 @@ Definition decl_outcome (isvoid : bool) (t : thr) : list Z :=
   match t with
   | TR (KVal v) _ => [1; if isvoid then 0 else v]
   | TR (KAsyncV v) _ => [1; if isvoid then 0 else v]
+  | TR (KCoVal v) _ => [1; if isvoid then 0 else v]
   | TR (KExc e) _ => [2; e]
   | TR (KAsyncE e) _ => [2; e]
   | _ => [0; 0]
@@ -312,9 +324,9 @@ Definition list_eqb (a b : list Z) : bool :=
    refused / found ready and went on by itself), and what it read is the value the winner wrote *)
 Definition waiter_ok (exp : list Z) (l : list Z) : bool :=
   match l with
-  | [_; 2; 1; 4; b; 1; _] => Z.eqb b (match exp with 0 :: _ => 0 | _ => 1 end)
-  | [_; 2; 1; k; d; 1; _] => list_eqb [k; d] exp
-  | [_; 2; _; _; _; _; _] => false
+  | [_; 2; 1; 4; b; 1; _; r] => Z.eqb b (match exp with 0 :: _ => 0 | _ => 1 end) && Z.eqb r 1
+  | [_; 2; 1; k; d; 1; _; r] => list_eqb [k; d] exp && Z.eqb r 1      (* released => the future was ready and complete *)
+  | [_; 2; _; _; _; _; _; _] => false
   | _ => true
   end.
 Definition is_frame_line (l : list Z) : bool := match l with [11; _; _; _] => true | _ => false end.
@@ -332,7 +344,7 @@ Definition cell_oracle (isvoid : bool) (ops obs : list (list Z)) : bool :=
       (* no deadlock line: no waiter (or resolver) is left suspended *)
       && negb (existsb (fun l => match l with 777 :: _ => true | _ => false end) res)
       && existsb (fun l => list_eqb l [10; 0; 0]) res
-      && Nat.eqb (length (filter (fun l => match l with [_; 1; _] => true | [_; 2; _; _; _; _; _] => true | _ => false end) res))
+      && Nat.eqb (length (filter (fun l => match l with [_; 1; _] => true | [_; 2; _; _; _; _; _; _] => true | _ => false end) res))
                  (length decl)
       (* an async winner destroyed its frame exactly once, after the future became ready; nobody else did *)
       && list_eqb (concat (filter is_frame_line res)) (if asy then [11; Z.of_nat w; 1; 0] else [])
